@@ -31,7 +31,7 @@ BUDGET = {'quick': 30000, 'thorough': 600000}
 PROBES = ['dot-leading-line', 'bare-lf', 'bare-cr', 'no-final-newline',
           'empty-message', 'trailing-bytes', 'preloaded-buffer',
           'eod-split-across-reads', 'multi-part', 'lone-dot-line',
-          'variants-concurrent']
+          'variants-concurrent', 'size-limit-just-fits']
 STATES_MEASURE = 'distinct (message class flags, segmenter) pairs'
 STEP_CAP = 300000
 ALPHA = [b'.', b'\r', b'\n', b'a', b'\r\n', b'\r\n', b'.\r\n', b'\xe9',
@@ -75,7 +75,8 @@ def generate(seed, tier='quick'):
     return {'property': ID, 'harness': 'wire', 'seed': seed,
             'sched_seed': rng.getrandbits(48),
             'parts': [p.hex() for p in parts], 'trailing': trailing.hex(),
-            'variants': variants, 'concurrent': rng.random() < 0.4}
+            'variants': variants, 'concurrent': rng.random() < 0.4,
+            'max_size': rng.choice([None, None, 'exact', 'exact', 'room'])}
 
 
 def execute(scn, debug=False):
@@ -93,6 +94,8 @@ def execute(scn, debug=False):
         started = []
         if scn.get('concurrent'):
             world.probe('variants-concurrent')
+        if scn.get('max_size'):
+            world.probe('size-limit-just-fits')
         for i, (mode, param, latc, cap, preload) in enumerate(scn['variants']):
             a, b = net.socketpair(
                 world, 'v%d' % i,
@@ -108,13 +111,18 @@ def execute(scn, debug=False):
                 io_w.flush_send()
                 a.shutdown(2)
 
-            def reader(b=b, out=out, preload=preload):
+            # a size limit the message just fits (or fits with room) must
+            # change nothing, whatever the segmentation
+            ms = {None: None, 'exact': len(want), 'room': len(want) + 7}[
+                scn.get('max_size')]
+
+            def reader(b=b, out=out, preload=preload, ms=ms):
                 io_r = IO(b, ('r', 0))
                 try:
                     if preload:
                         io_r.buffered_recv()
                         world.probe('preloaded-buffer')
-                    out['data'] = DataReader(io_r).recv()
+                    out['data'] = DataReader(io_r, ms).recv()
                     out['left'] = io_r.recv_buffer
                 except Exception as e:
                     out['exc'] = '%s: %s' % (type(e).__name__, e)
